@@ -12,6 +12,7 @@
 (***************************************************************************)
 EXTENDS QueryString
 
+CONSTANT DateOnly  \* TRUE: only the sentences with a date comparison (second pass under another date parser)
 CONSTANT Wide      \* FALSE: second part from a small pool (8); TRUE: from a larger pool (48)
 
 VARIABLES w, res, done
@@ -65,8 +66,22 @@ MediumParts == {p \o b \o s : p \in Prefixes,
                                      FPrice \o C \o <<62, 61>> \o N10, FDate \o C \o <<60>> \o Q(Day),
                                      CatStar},
                               s \in {<<>>, <<94, 50>>}}
+\* The date parser of the syntax is a configuration of the library
+\* (query.QueryDateTimeParser), in the model the constant ValidDates.  DateOnly
+\* selects the sentences with a date comparison; they are enumerated a second
+\* time under another parser (StampOnlyDates: only the full time stamp is a date)
+\* and replayed after the knob was turned.
+DateBases == { FDate \o C \o <<62>> \o Q(Day), FDate \o C \o <<62, 61>> \o Q(Stamp),
+               FDate \o C \o <<60>> \o Q(Stamp), FDate \o C \o <<60, 61>> \o Q(Day),
+               FDate \o C \o <<62>> \o Q(NotADate) }
+DateParts == {p \o b \o s : p \in Prefixes, b \in DateBases, s \in {<<>>, <<94, 50>>}}
+DateSentences ==
+  DateParts \cup {a \o <<32>> \o b : a \in DateParts, b \in {Dog, FDate \o C \o <<60, 61>> \o Q(Stamp), FDate \o C \o <<62>> \o Q(Day)}}
+                 \cup {b \o <<32>> \o a : a \in DateParts, b \in {Dog, FDate \o C \o <<60>> \o Q(Day)}}
+StampOnlyDates == {Stamp}
 Sentences ==
-  Parts \cup {a \o <<32>> \o b : a \in Parts, b \in (IF Wide THEN MediumParts ELSE SmallParts)}
+  IF DateOnly THEN DateSentences
+  ELSE Parts \cup {a \o <<32>> \o b : a \in Parts, b \in (IF Wide THEN MediumParts ELSE SmallParts)}
 
 Init == w \in Sentences /\ res = Reject /\ done = FALSE
 Next == ~done /\ done' = TRUE /\ res' = Result(w) /\ UNCHANGED w
@@ -80,6 +95,9 @@ TildeBases == {Cat \o <<126>>, Cat \o <<126, 50>>, FTitle \o C \o Cat \o <<126, 
 WellFormedBases == Bases \ {FDate \o C \o <<62>> \o Q(NotADate), FTitle \o C \o <<62>> \o Cat, FTitle \o C}
 GoodParts == {p \o b \o s : p \in Prefixes, b \in WellFormedBases \ TildeBases, s \in Suffixes \ {<<94, 120>>}}
              \cup {p \o b : p \in Prefixes, b \in TildeBases}
+\* a date clause is only ever built from a phrase the configured parser accepts
+DateClausesValid ==
+  (done /\ res.ok) => \A i \in 1..Len(res.cl) : res.cl[i].kind = "date" => res.cl[i].text \in ValidDates
 WellFormedAccepted ==
   done => /\ (w \in GoodParts => res.ok /\ Len(res.cl) = 1)
           /\ (res.ok => Len(res.cl) \in {1, 2})
